@@ -737,3 +737,6 @@ func singleFieldStore(al *ssa.Alloc, i int) ssa.Value {
 	}
 	return nil
 }
+
+// Child returns the context created by expanding call inside c (nil when the call was not expanded).
+func (c *FCtx) Child(call ssa.CallInstruction) *FCtx { return c.kids[call] }
